@@ -782,8 +782,18 @@ func (r *Reconciler) reconcileApply(ctx context.Context, proposal *configapi.Pro
 		if config.Status.Applied.Values == nil {
 			config.Status.Applied.Values = make(map[string]*configapi.PathValue)
 		}
-		for path, changeValue := range updatedChangeValues {
-			_, _ = applyChangeToConfig(config.Status.Applied.Values, path, changeValue)
+		// The applied values mirror the target: a delete also removes what was applied beneath the deleted path,
+		// which may no longer be what the (later) committed values hold beneath it.
+		appliedChangeValues := controllerutils.AddDeleteChildren(proposal.TransactionIndex, changeValues, config.Status.Applied.Values)
+		for path, changeValue := range appliedChangeValues {
+			if changeValue.Deleted {
+				config.Status.Applied.Values[path] = changeValue
+			}
+		}
+		for path, changeValue := range appliedChangeValues {
+			if !changeValue.Deleted {
+				_, _ = applyChangeToConfig(config.Status.Applied.Values, path, changeValue)
+			}
 		}
 
 		if err := r.configurations.UpdateStatus(ctx, config); err != nil {
